@@ -392,3 +392,14 @@ def q9_lexical(ctx):
 
 
 RULES.append(('Q9', q9_lexical))
+
+
+def q10_matcher(ctx):
+    """Q10 the pattern scan of rule_tokinizer / find_match, tabulated (scv/matcher.py): which tokens a rule function is handed
+    for each named field and what the matched run is replaced by, on every line of up to three (thorough: four) tokens"""
+    from ..matcher import matcher_table
+    ctx.rule('Q10', 'pattern scan: matches, field bindings and replacement (tabulated)', floor=1)
+    matcher_table(ctx, 'Q10', deep=(ctx.tier == 'thorough' and ctx.cfg_name == 'dev'))
+
+
+RULES.append(('Q10', q10_matcher))
